@@ -12,7 +12,7 @@ fresh process), matches them against known_findings.json, writes
 evidence/<id>.json.  Exit 0: property held on everything explored (KNOWN-FINDING
 lines are allowed); exit 1: VIOLATION line(s); exit 2: the machinery itself
 misbehaved (build failure, nondeterminism)."""
-import argparse, collections, copy, hashlib, json, os, re, subprocess, sys, time, threading, queue
+import argparse, collections, copy, hashlib, json, os, random, re, subprocess, sys, time, threading, queue
 
 VERIF = os.path.dirname(os.path.abspath(__file__))
 sys.path.insert(0, VERIF)
@@ -24,12 +24,12 @@ NCPU = os.cpu_count() or 4
 COLD_BASE = 10000000   # run indices of cold-start scenarios (one fresh process each)
 
 CONFIG = {
-    "C01": dict(parts=[("plain", 1.0), ("asan", 0.15), ("vg", 0.02)], quick=2400, thorough=40000, chunk=40, timeout=120,
+    "C01": dict(history=(200, 3000), parts=[("plain", 1.0), ("asan", 0.15), ("vg", 0.02)], quick=2400, thorough=40000, chunk=40, timeout=120,
                 rule="one run = a seeded history of 15-200 operations (create/destroy/2D+3D batched and single-entry queries/size/distance, "
                      "failing requests, allocation faults) over 1-4 live worlds built from corpus and generated files; every response is "
                      "compared bit for bit with stand-alone single-property answers of fresh worlds. Non-trivial = at least one oracle "
                      "comparison was made; distinct = distinct event-log hash (responses of all operations)."),
-    "C07": dict(parts=[("plain", 1.0), ("asan", 0.1)], quick=1200, thorough=20000, chunk=20, timeout=180,
+    "C07": dict(history=(150, 2000), parts=[("plain", 1.0), ("asan", 0.1)], quick=1200, thorough=20000, chunk=20, timeout=180,
                 rule="one run = twin worlds of one generated file (slabs/faults incl. curved, high-latitude and dateline-crossing trenches; "
                      "area features with depth surfaces), one with the shipped shortcuts, one with a seeded subset of shortcut sites S1-S8 "
                      "disabled, asked the same placed/adaptive/uniform points. Non-trivial = at least one point was inside a feature "
@@ -44,12 +44,12 @@ CONFIG = {
                      "-j 1..40, every switch decided by the seeded scheduler at thread spawn/join/exit, operation boundaries and the yield "
                      "points inside World::properties. Oracles: answers == sequential reference, TSan reports == 0, output bytes == -j 1 bytes. "
                      "Non-trivial = more than one task was runnable at some decision point; distinct = distinct decision-trace hash."),
-    "C15": dict(parts=[("plain", 1.0), ("asan", 0.15), ("tsan", 0.1)], quick=1600, thorough=30000, chunk=40, timeout=120,
+    "C15": dict(history=(150, 2000), parts=[("plain", 1.0), ("asan", 0.15), ("tsan", 0.1)], quick=1600, thorough=30000, chunk=40, timeout=120,
                 rule="one run = twins (same file, same seed) and a sibling (other seed) of a generated world with random grain / random "
                      "composition models, same query sequence interleaved differently with unrelated worlds; oracles: twin equality, "
                      "mt19937 engine model (state after every op), rotation/size/bounds validity. Non-trivial = at least one random draw "
                      "happened; distinct = distinct event-log hash."),
-    "C16": dict(parts=[("asan", 1.0), ("tsan", 0.2)], quick=700, thorough=12000, chunk=20, timeout=180,
+    "C16": dict(history=(60, 600), parts=[("asan", 1.0), ("tsan", 0.2)], quick=700, thorough=12000, chunk=20, timeout=180,
                 rule="one run = native/C/C++-wrapper twins created with the same arguments (file, output-dir flag and path, seed) and asked "
                      "the same operations; oracles: bit-identical responses, identical file effect traces of the creations, same failures. "
                      "Non-trivial = at least one wrapper response was compared; distinct = distinct event-log hash."),
@@ -180,18 +180,22 @@ def child_env():
 
 
 # ------------------------------------------------------------------ minimiser
-def with_history(prefix, sc):
+def with_history(prefix, sc, alone_hash=None):
     """a scenario together with the scenarios that ran before it in the same process"""
     if not prefix:
         return sc
-    return {"property": sc.get("property"), "sequence": list(prefix) + [sc]}
+    d = {"property": sc.get("property"), "sequence": list(prefix) + [sc]}
+    if alone_hash:
+        d["alone_hash"] = alone_hash   # what the last scenario's event log hashes to when nothing ran before it
+    return d
 
 
 class Minimiser:
-    def __init__(self, binary, scenario, cls, site, timeout, budget_runs=160, budget_s=90, prefix=None):
+    def __init__(self, binary, scenario, cls, site, timeout, budget_runs=160, budget_s=90, prefix=None, alone_hash=None):
         self.binary, self.cls, self.site, self.timeout = binary, cls, site, timeout
         self.best = scenario
         self.prefix = prefix or []   # scenarios executed before it in the same process (a history replay)
+        self.alone_hash = alone_hash
         self.runs = 0
         self.budget_runs, self.deadline = budget_runs, time.time() + budget_s
 
@@ -199,7 +203,7 @@ class Minimiser:
         if self.runs >= self.budget_runs or time.time() > self.deadline:
             return False
         self.runs += 1
-        r = run_exec(self.binary, with_history(self.prefix, sc), self.timeout)
+        r = run_exec(self.binary, with_history(self.prefix, sc, self.alone_hash), self.timeout)
         return any(c == self.cls and s == self.site for c, s, _ in r["classes"])
 
     def shrink_prefix(self):
@@ -208,7 +212,7 @@ class Minimiser:
         while i < len(self.prefix) and self.runs < self.budget_runs and time.time() < self.deadline:
             cand = self.prefix[:i] + self.prefix[i + 1:]
             self.runs += 1
-            r = run_exec(self.binary, with_history(cand, self.best), self.timeout)
+            r = run_exec(self.binary, with_history(cand, self.best, self.alone_hash), self.timeout)
             if any(c == self.cls and s == self.site for c, s, _ in r["classes"]):
                 self.prefix = cand
             else:
@@ -500,6 +504,7 @@ def check(prop, tier, seed, runs_override=None, workers=None, repo="/repo", time
 
     agg = collections.Counter()
     hashes = {}
+    first_slice = {}   # run -> first run of the worker process that executed it (first flavour)
     nontrivial_hashes = set()
     interleavings = set()
     total_runs = 0
@@ -526,6 +531,7 @@ def check(prop, tier, seed, runs_override=None, workers=None, repo="/repo", time
             h = d["hash"]
             if flavour == cfg["parts"][0][0]:
                 hashes[r] = h
+                first_slice[r] = pool.slice_of.get(r, r)
             nt = d["counters"].get("nontrivial", 1 if d["counters"].get("evaluations", 0) > 0 else 0) > 0
             if prop == "C12":
                 nt = any(k.startswith("fault_") for k in d["counters"]) or any(
@@ -553,6 +559,53 @@ def check(prop, tier, seed, runs_override=None, workers=None, repo="/repo", time
             nondet.append((flavour, r))
         for r, info in pool.infos.items():
             walls.append(info.get("wall", 0))
+
+    # ---------------- process history: a sample of runs is executed again, each alone in a fresh process. A worker
+    # had built and destroyed other worlds before it came to that run; the responses have to be the same anyway.
+    if cfg.get("history") and time.time() < deadline:
+        nq, nt = cfg["history"]
+        n = nq if tier == "quick" else nt
+        if runs_override:
+            n = max(4, int(n * runs_override / cfg[tier]))
+        flavour = cfg["parts"][0][0]
+        binary = B.binary(repo, flavour)
+        cand = sorted(r for r in hashes if first_slice.get(r, r) < r)
+        rnd = random.Random(seed)
+        rnd.shuffle(cand)
+        cand = cand[:n]
+        tp = time.time()
+        hist_lock = threading.Lock()
+        todo = queue.Queue()
+        for r in cand:
+            todo.put(r)
+        done = [0]
+
+        def history_worker():
+            while time.time() < deadline:
+                try:
+                    r = todo.get_nowait()
+                except queue.Empty:
+                    return
+                sc = gen_scenario(binary, prop, seed, r, tier)
+                if sc.get("cold"):
+                    continue
+                x = run_exec(binary, sc, cfg["timeout"], workdir=outdir)
+                with hist_lock:
+                    done[0] += 1
+                    agg["history_cross_checks"] += 1
+                    if x["hash"] is not None and x["hash"] != hashes[r]:
+                        agg["history_cross_check_differences"] += 1
+                        key = (prop + "/process-history", "responses")
+                        e = viol.setdefault(key, dict(run=r, flavour=flavour, count=0, slice=first_slice.get(r, r), alone_hash=x["hash"],
+                                                      detail="run %d: responses hash to %s in the worker that had executed runs %d..%d before it, to %s alone in a fresh process"
+                                                      % (r, hashes[r], first_slice.get(r, r), r - 1, x["hash"])))
+                        e["count"] += 1
+        ts = [threading.Thread(target=history_worker, daemon=True) for _ in range(workers)]
+        for t in ts:
+            t.start()
+        for t in ts:
+            t.join()
+        per_flavour[flavour + "-alone-in-fresh-process"] = dict(runs=done[0], wall_s=round(time.time() - tp, 2), crashes=0)
 
     # ---------------- cold-start scenarios: each one is the first thing a fresh process does
     if cfg.get("cold") and time.time() < deadline:
@@ -628,7 +681,7 @@ def check(prop, tier, seed, runs_override=None, workers=None, repo="/repo", time
             except Exception:
                 prefix = []
             if prefix:
-                again = run_exec(binary, with_history(prefix, sc), cfg["timeout"] * 4)
+                again = run_exec(binary, with_history(prefix, sc, e.get("alone_hash")), cfg["timeout"] * 4)
                 reproduced = any(c == cls and s == site for c, s, _ in again["classes"])
                 if not reproduced:
                     prefix = []
@@ -643,12 +696,14 @@ def check(prop, tier, seed, runs_override=None, workers=None, repo="/repo", time
         # full minimisation for the first few signatures, a lighter pass for the rest (bounded wall clock)
         n_minimised += 1
         mini = Minimiser(binary, sc, cls, site, cfg["timeout"] * (4 if prefix else 1),
-                         budget_runs=160 if n_minimised <= 3 else 25, budget_s=(90 if n_minimised <= 3 else 20) * (3 if prefix else 1), prefix=prefix)
+                         budget_runs=160 if n_minimised <= 3 else 25, budget_s=(90 if n_minimised <= 3 else 20) * (3 if prefix else 1), prefix=prefix,
+                         alone_hash=e.get("alone_hash"))
         if n_minimised > 8:
             mini.budget_runs = 0
         if prefix:
             mini.shrink_prefix()
-        small = with_history(mini.prefix, mini.run())
+        # a scenario judged by "same responses as alone" is kept as it is: its expected hash belongs to it
+        small = with_history(mini.prefix, mini.best if e.get("alone_hash") else mini.run(), e.get("alone_hash"))
         small["expected_class"] = cls
         small["expected_site"] = site
         small["flavour"] = e["flavour"]
